@@ -64,7 +64,6 @@ func walk(o *corr.Out, isChan bool, progs [][]string, class string, strict bool)
 		if len(ch) == 0 {
 			break
 		}
-		// prefer to stay on the same goroutine sometimes, so that long critical sections get interleaved in different ways
 		w.release(ch[o.Rand.Intn(len(ch))])
 	}
 	finish(o, w, class, "")
@@ -518,10 +517,14 @@ func Run(o *corr.Out) {
 		for i := 0; i < nWalk; i++ {
 			ng := 2 + o.Rand.Intn(2)
 			var progs [][]string
+			walkOps := ops
+			if !isChan {
+				walkOps = append(append([]string{}, ops...), "s0") // Set(nil) as well
+			}
 			for try := 0; ; try++ {
 				progs = nil
 				for g := 0; g < ng; g++ {
-					progs = append(progs, randProg(o, ops, 3))
+					progs = append(progs, randProg(o, walkOps, 3))
 				}
 				if !isChan || chanOK(progs) {
 					break
@@ -533,4 +536,5 @@ func Run(o *corr.Out) {
 	// (D) the contract question of Chan, replayed: two Close calls (what poolConn.Close() twice does)
 	replay(o, true, [][]string{{"g", "c"}, {"c"}}, nil, "chan:double-close")
 	replay(o, true, [][]string{{"c"}, {"c"}}, nil, "chan:double-close")
+	poolConnDoubleClose(o)
 }
